@@ -234,25 +234,113 @@ def _before_exit(body, h, p, e):
 
 
 
-def any_scan(body_of, atom):
-    """`xs.iter().any(|x| c(x))` as an existential scan: -> ExistsLoop-like object whose set_paths are the
-    guard lists under which the closure returns true (the visited element is ('elem', iter term, None))"""
+SCAN_METHODS = ("any", "all", "find", "position", "rposition")
+
+
+def pipeline(body_of, it):
+    """an iterator expression  base.iter()[.rev()] (.enumerate() | .filter(c) | .map(f) | .cloned() | .copied() | .clone())*
+    -> dict(base = the underlying ('iter', xs, dir) term, enum = is the position visible, elem = the term the consumer
+    sees for the visited element, guards = conditions every element that reaches the consumer satisfies (filters),
+    skips = guard lists under which an element is filtered out, problems)"""
+    from . import mir
+    out = {"base": None, "enum": False, "elem": None, "guards": [], "skips": [], "problems": []}
+    stages = []
+    t = it
+    for _ in range(12):
+        if isinstance(t, tuple) and t and t[0] == "clone":
+            t = t[1]
+            continue
+        if isinstance(t, tuple) and t and t[0] == "call" and mir.method_name(t[1]) in ("enumerate", "filter", "map", "cloned", "copied", "by_ref", "into_iter") and t[2]:
+            stages.append((mir.method_name(t[1]), t[2][1] if len(t[2]) > 1 else None))
+            t = t[2][0]
+            continue
+        break
+    if not (isinstance(t, tuple) and t and t[0] == "iter"):
+        out["problems"].append("not an iterator over a collection: %s" % mir.show(t)[:60])
+        return out
+    out["base"] = t
+    cur = mir.T("elem", t, None)
+    for m, clos in reversed(stages):
+        if m == "enumerate":
+            out["enum"] = True
+            cur = mir.T("tuple", (mir.T("enumidx", t), cur))
+        elif m in ("cloned", "copied", "by_ref", "into_iter"):
+            pass
+        elif m in ("filter", "map"):
+            if not (isinstance(clos, tuple) and clos and clos[0] == "closure"):
+                out["problems"].append("%s with a non-closure argument" % m)
+                return out
+            try:
+                paths, cb = mir.walk_closure(body_of, clos, param_terms=[cur])
+            except Exception as ex:
+                out["problems"].append("%s closure: %s" % (m, type(ex).__name__))
+                return out
+            rets = [p for p in paths if p.outcome[0] == "return"]
+            if m == "map":
+                if len(rets) != 1 or [e for e in rets[0].events if e.kind == "guard"]:
+                    out["problems"].append("map closure is not a single expression")
+                    return out
+                cur = rets[0].outcome[1]
+            else:
+                keep, drop = [], []
+                for p in rets:
+                    gs = [(e.a, e.b) for e in p.events if e.kind == "guard"]
+                    r = p.outcome[1]
+                    v = mir.const_int(r)
+                    if v is None:
+                        leaves = []
+                        bool_leaves(r, leaves)
+                        if len(leaves) != 1:
+                            out["problems"].append("filter closure result not a single atom")
+                            return out
+                        neg = isinstance(r, tuple) and r[0] == "not"
+                        keep.append(gs + [(leaves[0], not neg)])
+                        drop.append(gs + [(leaves[0], neg)])
+                    else:
+                        (keep if v else drop).append(gs)
+                if len(keep) != 1:
+                    out["problems"].append("filter closure keeps an element on %d different paths" % len(keep))
+                    return out
+                out["guards"] += keep[0]
+                out["skips"] += [out["guards"][:-len(keep[0])] + d if len(keep[0]) else d for d in drop]
+    out["elem"] = cur
+    return out
+
+
+def closure_scan(body_of, atom):
+    """`xs.iter()[.rev()][.enumerate()].any|all|find|position|rposition(|x| c(x))` as a scan: -> ExistsLoop-like
+    object; set_paths / cont_paths are the guard lists under which the closure returns true / false.  The visited
+    element is ('elem', iter term, None); with enumerate() the closure sees the pair (('enumidx', iter term), element).
+    .method is the adaptor, .enum whether the index is visible to the closure."""
     from . import mir
     el = ExistsLoop()
-    if not (isinstance(atom, tuple) and atom and atom[0] == "call" and mir.method_name(atom[1]) == "any" and len(atom[2]) == 2):
-        el.problems.append("not an any() call")
+    el.method = None
+    el.enum = False
+    if not (isinstance(atom, tuple) and atom and atom[0] == "call" and mir.method_name(atom[1]) in SCAN_METHODS and len(atom[2]) == 2):
+        el.problems.append("not a scan call")
         return el
+    el.method = mir.method_name(atom[1])
     it, clos = atom[2]
-    if not (isinstance(it, tuple) and it[0] == "iter" and isinstance(clos, tuple) and clos[0] == "closure"):
-        el.problems.append("any() shape")
+    pl = pipeline(body_of, it)
+    if pl["problems"] or not (isinstance(clos, tuple) and clos and clos[0] == "closure"):
+        el.problems.append("scan shape: %s" % (pl["problems"][:1] or ["consumer is not a closure"]))
         return el
+    el.enum = pl["enum"]
+    it = pl["base"]
     el.iter_term = it
-    elem = mir.T("elem", it, None)
-    paths, cb = mir.walk_closure(body_of, clos, param_terms=[elem])
+    param = pl["elem"]
+    pre = pl["guards"]
+    for skipped in pl["skips"]:
+        el.cont_paths.append(skipped)
+    try:
+        paths, cb = mir.walk_closure(body_of, clos, param_terms=[param])
+    except Exception as ex:
+        el.problems.append("closure body: %s" % type(ex).__name__)
+        return el
     for p in paths:
         if p.outcome[0] != "return":
             continue
-        gs = [(e.a, e.b) for e in p.events if e.kind == "guard"]
+        gs = pre + [(e.a, e.b) for e in p.events if e.kind == "guard"]
         r = p.outcome[1]
         v = mir.const_int(r)
         if v is None:
@@ -271,3 +359,13 @@ def any_scan(body_of, atom):
     if not el.set_paths:
         el.problems.append("closure never returns true")
     return el
+
+
+def any_scan(body_of, atom):
+    """`xs.iter().any(|x| c(x))` as an existential scan (see closure_scan)"""
+    from . import mir
+    if not (isinstance(atom, tuple) and atom and atom[0] == "call" and mir.method_name(atom[1]) == "any"):
+        el = ExistsLoop()
+        el.problems.append("not an any() call")
+        return el
+    return closure_scan(body_of, atom)
